@@ -105,6 +105,9 @@ type c06World struct {
 	nested    bool   // b.example is delivered through a nested pipeline (reroute) with a check of its own
 	nchk      *actors.ScriptedCheck
 	lAction   string // its fail_action: reject, quarantine, ignore
+	lArgs     []string // the arguments of the directive when they are more than the action
+	lTemp     bool     // ... and they make the rejection a temporary one
+	lNoDirective bool  // no fail_action directive at all: the registered default (reject) applies
 }
 
 var c06Checks = []string{"G", "G2", "X", "S", "S2", "D1", "D2", "L"}
@@ -171,6 +174,26 @@ func (w *c06World) genScenario() {
 	w.partial = map[string]bool{"t1": s.T.Choose(st, 2) == 1, "t2": s.T.Choose(st, 2) == 1}
 	w.useL = s.T.Choose(st, 2) == 1
 	w.lAction = []string{"reject", "quarantine", "ignore"}[s.T.Choose(st, 3)]
+	// the directive may carry a reply of its own (wrapped around the check's
+	// reason), or be absent (the check's registered default applies: reject)
+	switch s.T.Choose(st, 4) {
+	case 0:
+		switch w.lAction {
+		case "reject":
+			if s.T.Choose(st, 2) == 0 {
+				w.lArgs = []string{"reject", "541", "5.4.0", "overridden by fail_action"}
+			} else {
+				w.lArgs = []string{"reject", "441", "4.4.0", "overridden by fail_action"}
+				w.lTemp = true
+			}
+		case "quarantine":
+			w.lArgs = []string{"quarantine", "542", "5.4.2", "quarantine reason overridden"}
+		}
+	case 1:
+		if w.lAction == "reject" {
+			w.lNoDirective = true
+		}
+	}
 	w.g2 = s.T.Choose(st, 2) == 1
 	w.twoCl = s.T.Choose(st, 2) == 1
 	w.splitChk = s.T.Choose(st, 2) == 1
@@ -248,7 +271,14 @@ func (w *c06World) build06() error {
 			if err != nil {
 				return err
 			}
-			module.RegisterInstance(mod, config.NewMap(nil, config.Node{Children: []config.Node{node("fail_action", w.lAction)}}))
+			fa := []config.Node{node("fail_action", w.lAction)}
+			if w.lArgs != nil {
+				fa = []config.Node{node("fail_action", w.lArgs...)}
+			}
+			if w.lNoDirective {
+				fa = nil
+			}
+			module.RegisterInstance(mod, config.NewMap(nil, config.Node{Children: fa}))
 			delete(module.Initialized, n)
 			continue
 		}
@@ -377,6 +407,9 @@ func (w *c06World) genTxs() {
 				// a stateless check only says pass/fail; the verdict is its
 				// configured fail_action
 				lv := map[string]actors.Verdict{"reject": actors.VRejectPerm, "quarantine": actors.VQuarantine, "ignore": actors.VIgnore}[w.lAction]
+				if w.lTemp {
+					lv = actors.VRejectTemp
+				}
 				fix := func(v actors.Verdict) actors.Verdict {
 					if v != actors.VNone {
 						return lv
@@ -758,7 +791,7 @@ func RunC06(s *simrt.Sim, a *harness.Args, r *harness.Result) {
 			}
 		}
 	}
-	r.Shape = fmt.Sprintf("lmtp=%v defer=%v xg=%v xd=%v g2=%v 2cl=%v L=%v/%s nest=%v dmarc=%v/%v|%s", w.lmtp, w.deferRj, w.xGlobal, w.xInD1, w.g2, w.twoCl, w.useL, w.lAction, w.nested, w.dmarc, w.dnsDelay, w.planShape())
+	r.Shape = fmt.Sprintf("lmtp=%v defer=%v xg=%v xd=%v g2=%v 2cl=%v L=%v/%s nest=%v dmarc=%v/%v|%s", w.lmtp, w.deferRj, w.xGlobal, w.xInD1, w.g2, w.twoCl, w.useL, w.lAction+fmt.Sprint(len(w.lArgs), w.lNoDirective), w.nested, w.dmarc, w.dnsDelay, w.planShape())
 	st := s.Stats()
 	nf := 0
 	for k, v := range st {
